@@ -55,6 +55,28 @@ def local_array(fn, min_len=2):
     return out
 
 
+def rule_stream_error_polled(facts, rid):
+    """A reader over a streaming lexer that parks I/O errors in a field (`Option<io::Error>`, polled with `take`) must poll it on
+    every way out of the function that produces the next value -- also when the token stream simply ended."""
+    import re as _re
+    from mirutil import Body as _Body
+    r = Rule(rid, "where a reader polls the I/O error parked by its byte source (`Option<io::Error>::take`), every return of that function passes through the poll: "
+             "a read error that strikes between two values is reported, not taken for the end of the input", floor=1)
+    for crate, body in facts.all_mir():
+        if crate not in ("jaq_json", "jaq_fmts", "jaq_all", "jaq") or body.get("test"):
+            continue
+        b = _Body(body)
+        polls = [i for i, t in b.calls() if _re.search(r"core::option::Option::<T>::take$", t.get("fn") or "") and any("Option<std::io::error::Error>" in a for a in t.get("argtys", []))]
+        if not polls:
+            continue
+        seen = b.reachable(0, removed_nodes=polls, unwind=False)
+        skipping = [x for x in seen if b.bbs[x]["t"]["k"] == "Return"]
+        r.examined(("poll", body["def"]), True, {"fn": body["def"], "polls": len(polls), "returns_that_skip_the_poll": len(skipping)})
+        if skipping:
+            r.violate(f"unpolled/{body['def']}", f"`{body['def']}` can return without looking at the parked I/O error (an early return, e.g. `?` on the end of the tokens): a failing read at a value boundary ends the input silently", where=b.bbs[polls[0]]["t"]["sp"])
+    return r
+
+
 def run(facts, tier):
     t0 = time.time()
     rules = []
@@ -642,6 +664,9 @@ def run(facts, tier):
     if nread < 40:
         t11.missing_anchor(f"reader bodies ({nread} found)")
     rules.append(t11.finish())
+
+    # ---------------- T14.12 parked I/O errors are polled on every return (shared with C17 E17.10)
+    rules.append(rule_stream_error_polled(facts, "T14.12").finish())
 
     explanation = ("Full round trips for all values are value-level and not decided (known gaps found by reading are listed in DESIGN.md D8). Decided: the first-party reader and writer tables agree "
                    "(TSV and CSV escapes are mutual inverses, CBOR kinds, XML keys, YAML special literals, domain errors), extracted from the typed HIR.")
